@@ -966,6 +966,21 @@ def witness(kind, fmt):
         sc = Scenario(fmt, [[Anchor(f"{md}/a.png")], [Anchor(f"{md}/a.png", "relative", "dangling")], [Anchor(f"{md}/b.gif")]],
                       {f"{md}/a.png": A, f"{md}/b.gif": B}, note="the picture on unit 2 uses an r:embed id that only the relationship part of unit 1 defines")
         return first_failure([sc], ("no-foreign", "bytes", "unit", "numbering") if fmt != "pptx" else ("no-foreign", "bytes", "unit"))
+    if kind == "media-elsewhere":
+        # the package, not a folder name, says where a picture lives: media parts outside the conventional media directory
+        top = md.split("/")[0]
+        places = {"docx": ["word/pics/a.png", "images/b.gif", "word/media/deep/er/c.png"], "pptx": ["ppt/img/a.png", "images/b.gif", "ppt/slides/c.png"],
+                  "xlsx": ["xl/images/a.png", "images/b.gif", "xl/drawings/c.png"], "epub": ["OEBPS/pix/a.png", "cover.gif", "OEBPS/c.png"]}.get(
+            fmt, ["media/a.png", "b.gif", "Pictures/sub/c.png", "Thumbnails/d.png"])
+        scs = []
+        for variant in (places, places[:1], places[1:2]):
+            media, anchors = {}, []
+            for k, part in enumerate(variant, start=1):
+                media[part] = _img(k, part.rsplit(".", 1)[-1])
+                anchors.append(Anchor(part))
+            units = [anchors] if fmt in ("docx", "odt") else [anchors[:1], anchors[1:]]
+            scs.append(Scenario(fmt, units, media, note="media parts outside the conventional media directory"))
+        return first_failure(scs, ("resolution", "bytes", "unit"), dedup=fmt in ("odt", "odg"))
     if kind in ("special-names", "percent-names"):
         # part names with characters that are ordinary in a ZIP member name but special in a reference: '+' and ',' are literal
         # everywhere; space, '%' and '#' must be percent-encoded in an IRI reference (EPUB) and decoded by the reader
@@ -1067,6 +1082,8 @@ def search(ob, wit=None):
     if "/numbering#" in ob:
         # the number an image carries: documents whose pictures are all present, one unit (gaps and restarts have their own obligations)
         return sweep(fmt, ("numbering",), max_units=1, kinds=("embedded",))
+    if "/completeness#" in ob:
+        return witness("media-elsewhere", fmt) or sweep(fmt, ("resolution", "bytes"), kinds=("embedded",))
     if "/pixel-size#" in ob:
         return witness("pixel-size", fmt)
     if "/order#" in ob:
